@@ -95,8 +95,9 @@ class Check:
     # -- finishing ---------------------------------------------------------------------------
     def finish(self):
         # vacuity gate: a rule with fewer instances than confirmed by hand is analysis-broken
+        violated = {v["rule"] for v in self.violations} | {rec["rule"] for _, rec in self.known_hits}
         for rid, r in self.rules.items():
-            if r["n"] < r["min"]:
+            if r["n"] < r["min"] and rid not in violated:
                 raise AnalysisBroken("rule %s matched %d instance(s), expected at least %d: the "
                                      "anchor moved or vanished" % (rid, r["n"], r["min"]))
         os.makedirs(os.path.join(EVIDENCE, "replay"), exist_ok=True)
